@@ -9,13 +9,22 @@
 // a UI section with an ordinary name, ui = <c><hex> one whose name is the
 // string of GUID <hex> in upper (u), lower (l) or mixed (m) case, i.e. the name
 // the regex predicate of the `remove` command would match; <vols> after a file
-// are the volumes nested in it.  The root handed to the visitors is a
+// are the volumes nested in it, one FIRMWARE_VOLUME_IMAGE section each, placed
+// directly in the file; {vols} puts those sections, after a raw leaf section,
+// inside one GUID-defined section of the file (the layout of an LZMA-compressed
+// DXE volume in EDK2 images), (vols) inside a GUID-defined section inside a
+// compression section (two wrapping levels).  To the model all three are "the
+// volumes nested in the file"; observations print them as <vols>.  The root
+// handed to the visitors is a
 // BIOSRegion holding the volumes, unless the tree has a prefix: "V!" + one
 // volume: the root is that *uefi.FirmwareVolume itself, built in code; "X!" +
 // one volume: the volume is serialised (harness/uefigen), read back with
 // uefi.Parse and the volume node of the result is the root (sizes are then the
 // real ones; property oracles only); "F!" + one file / "S!" + volumes: the
-// root is a File / a Section holding the volumes (Remove only).  The boot
+// root is a File / a Section holding the volumes (Remove only); "I!" + volumes:
+// the root is a FlashImage (what uefi.Parse gives for a full flash image): a
+// descriptor, a raw region and a BIOSRegion holding the volumes with padding
+// elements before, between and after them.  The boot
 // test is a scripted DXECleaner.Test; it records the tree it is shown.  The
 // cleaner's log writer is used as an observation point: "Trying to remove
 // <GUID>" is printed just before each removal, i.e. after the previous undo.
@@ -117,7 +126,7 @@ func uiSection(field string) *uefi.Section {
 }
 
 // parser of the tree syntax: vols := vol ('/' vol)*; vol := ” | file (',' file)*;
-// file := guid.type.size[.ui] ['<' vols '>']
+// file := guid.type.size[.ui] ['<' vols '>' | '{' vols '}' | '(' vols ')']
 type parser struct {
 	s   string
 	pos int
@@ -143,7 +152,7 @@ func (p *parser) vols() []*uefi.FirmwareVolume {
 
 func (p *parser) vol() *uefi.FirmwareVolume {
 	fv := &uefi.FirmwareVolume{}
-	if c := p.peek(); c == 0 || c == '/' || c == '>' {
+	if c := p.peek(); c == 0 || c == '/' || c == '>' || c == '}' || c == ')' {
 		return fv
 	}
 	for {
@@ -157,7 +166,7 @@ func (p *parser) vol() *uefi.FirmwareVolume {
 
 func (p *parser) file() *uefi.File {
 	start := p.pos
-	for c := p.peek(); c != 0 && c != ',' && c != '/' && c != '<' && c != '>'; c = p.peek() {
+	for c := p.peek(); c != 0 && !strings.ContainsRune(",/<>{}()", rune(c)); c = p.peek() {
 		p.pos++
 	}
 	fld := strings.Split(p.s[start:p.pos], ".")
@@ -169,20 +178,46 @@ func (p *parser) file() *uefi.File {
 	if len(fld) > 3 { // the UI section comes first (Find lists the file before anything nested in it)
 		f.Sections = append(f.Sections, uiSection(fld[3]))
 	}
-	if p.peek() == '<' {
+	if open := p.peek(); open == '<' || open == '{' || open == '(' {
 		p.pos++
+		var images []*uefi.Section
 		for _, fv := range p.vols() { // one FIRMWARE_VOLUME_IMAGE section per nested volume
-			sec := &uefi.Section{Encapsulated: []*uefi.TypedFirmware{uefi.MakeTyped(fv)}}
-			sec.Header.Type = uefi.SectionTypeFirmwareVolumeImage
-			sec.Type = sec.Header.Type.String()
-			f.Sections = append(f.Sections, sec)
+			images = append(images, mkSection(uefi.SectionTypeFirmwareVolumeImage, fv))
 		}
-		if p.peek() != '>' {
-			panic("bad tree in case file: missing >")
+		switch open {
+		case '<': // directly in the file
+			f.Sections = append(f.Sections, images...)
+		case '{': // raw section + the images inside one GUID-defined section
+			kids := []uefi.Firmware{mkSection(uefi.SectionTypeRaw)}
+			for _, im := range images {
+				kids = append(kids, im)
+			}
+			f.Sections = append(f.Sections, mkSection(uefi.SectionTypeGUIDDefined, kids...))
+		default: // compression section > GUID-defined section > the images
+			var kids []uefi.Firmware
+			for _, im := range images {
+				kids = append(kids, im)
+			}
+			f.Sections = append(f.Sections,
+				mkSection(uefi.SectionTypeCompression, mkSection(uefi.SectionTypeGUIDDefined, kids...)))
+		}
+		if p.peek() != map[byte]byte{'<': '>', '{': '}', '(': ')'}[open] {
+			panic("bad tree in case file: missing closing bracket")
 		}
 		p.pos++
 	}
 	return f
+}
+
+// a section of the given type encapsulating the given nodes
+func mkSection(t uefi.SectionType, kids ...uefi.Firmware) *uefi.Section {
+	sec := &uefi.Section{}
+	sec.Header.Type = t
+	sec.Type = t.String()
+	for _, k := range kids {
+		sec.Encapsulated = append(sec.Encapsulated, uefi.MakeTyped(k))
+	}
+	return sec
 }
 
 func buildTree(s string) *tree {
@@ -206,6 +241,14 @@ func buildTree(s string) *tree {
 			br.Elements = append(br.Elements, uefi.MakeTyped(fv))
 		}
 		t.root, t.fvs = br, fvs
+	case 'I':
+		br := &uefi.BIOSRegion{}
+		for _, fv := range fvs {
+			br.Elements = append(br.Elements, uefi.MakeTyped(&uefi.BIOSPadding{}), uefi.MakeTyped(fv))
+		}
+		br.Elements = append(br.Elements, uefi.MakeTyped(&uefi.BIOSPadding{}))
+		t.root = &uefi.FlashImage{Regions: []*uefi.TypedFirmware{uefi.MakeTyped(&uefi.RawRegion{}), uefi.MakeTyped(br)}}
+		t.fvs = fvs
 	case 'V':
 		t.root, t.fvs = fvs[0], fvs[:1]
 	case 'X':
@@ -820,8 +863,12 @@ func pMono(a []string) string {
 func fileStr(g uint64, typ uint64, size uint64) string { return N(g) + "." + N(typ) + "." + N(size) }
 
 // GUID of the sampled trees' id g: 1..3 are tiny numbers, 4..6 have hex letters
-// in their string so that the case variants of a UI name differ
+// in their string so that the case variants of a UI name differ; 7 differs from
+// 4 in its first byte only (all the others differ in the last byte only)
 func gHex(g int) string {
+	if g == 7 {
+		return "b1b2c3d4e5f60718293a4b5c6d7e8f04"
+	}
 	if g >= 4 && g <= 6 {
 		return "a1b2c3d4e5f60718293a4b5c6d7e8f0" + N(uint64(g))
 	}
@@ -890,7 +937,7 @@ func randVol(r *Rng, ng, depth int, used map[int]bool) string {
 	fs := make([]string, nf)
 	for j := range fs {
 		g := r.Range(1, ng)
-		typ := uint64(r.Pick(7, 7, 7, 7, 7, 7, 6, 2, 5, 0xF0))
+		typ := uint64(r.Pick(7, 7, 7, 7, 7, 7, 6, 2, 5, 0xB, 0xF0)) // 0xB: firmware volume image file
 		size := uint64(r.Pick(0x20, 0x20, 0x20, 0x18, 0x40, 0x28, 0x17, 0))
 		if typ == 0xF0 {
 			fs[j] = "ffffffffffffffffffffffffffffffff.f0." + N(size)
@@ -906,13 +953,16 @@ func randVol(r *Rng, ng, depth int, used map[int]bool) string {
 			fs[j] += "." + uiField(r, gHex(r.Range(1, ng)))
 		}
 		// FV-image sections: nested volumes, under drivers and other files
-		if depth < 3 && r.Chance(1, 5+3*depth) {
+		if depth < 3 && (r.Chance(1, 5+3*depth) || typ == 0xB && r.Chance(2, 3)) {
 			nk := r.Pick(1, 1, 1, 2)
 			ks := make([]string, nk)
 			for k := range ks {
 				ks[k] = randVol(r, ng, depth+1, used)
 			}
-			fs[j] += "<" + strings.Join(ks, "/") + ">"
+			// the FV-image sections directly in the file, or inside wrapping
+			// sections (GUID-defined; compression > GUID-defined)
+			br := r.Pick(0, 0, 0, 1, 1, 2)
+			fs[j] += string("<{("[br]) + strings.Join(ks, "/") + string(">})"[br])
 		}
 	}
 	return strings.Join(fs, ",")
@@ -921,14 +971,14 @@ func randVol(r *Rng, ng, depth int, used map[int]bool) string {
 // a random tree and the GUID ids used in it
 func randImage(r *Rng) (string, []int) {
 	nv := r.Pick(1, 2, 2, 3, 3, 4)
-	ng := r.Range(1, 6)
+	ng := r.Range(1, 7)
 	used := map[int]bool{}
 	vols := make([]string, nv)
 	for i := range vols {
 		vols[i] = randVol(r, ng, 0, used)
 	}
 	var gs []int
-	for g := 1; g <= 6; g++ {
+	for g := 1; g <= 7; g++ {
 		if used[g] {
 			gs = append(gs, g)
 		}
@@ -942,9 +992,9 @@ func topLevel(img string) string {
 	d := 0
 	for i := 0; i < len(img); i++ {
 		switch img[i] {
-		case '<':
+		case '<', '{', '(':
 			d++
-		case '>':
+		case '>', '}', ')':
 			d--
 		default:
 			if d == 0 {
@@ -1006,6 +1056,13 @@ func gen(r *Rng, tier string, emit Emit) {
 		for _, v2 := range vs {
 			img := v1 + "/" + v2
 			for _, s := range sc {
+				all("ff", "0", img, s)
+			}
+			// the two kinds of test result the streams above do not contain: a
+			// failed test that also reports an error (2: handled as a reject) and
+			// a cancellation that comes with "booted" (3), first, after an accept
+			// and before one
+			for _, s := range []string{"3", "03", "2", "02", "20"} {
 				all("ff", "0", img, s)
 			}
 			for _, req := range []string{"-", "1", "2", "1,2", "3"} {
@@ -1083,6 +1140,61 @@ func gen(r *Rng, tier string, emit Emit) {
 			}
 		}
 	}
+	// 1e. the same nesting with the FV-image sections inside wrapping sections, as
+	// in every EDK2 image (DXE volume in a GUID-defined/LZMA section, possibly
+	// inside a compression section): every bracket level wrapped the same way, and
+	// mixed (outermost GUID-defined, next compression > GUID-defined, then direct)
+	rewrap := func(img string, kinds string) string { // kinds: bracket kind per depth, last one repeats
+		b := []byte(img)
+		d := 0
+		for i, c := range b {
+			k := d
+			if c == '>' {
+				k = d - 1
+			}
+			if k >= len(kinds) {
+				k = len(kinds) - 1
+			}
+			switch c {
+			case '<':
+				b[i] = "<{("[strings.IndexByte("<{(", kinds[k])]
+				d++
+			case '>':
+				d--
+				b[i] = ">})"[strings.IndexByte("<{(", kinds[k])]
+			}
+		}
+		return string(b)
+	}
+	var wrapped []string
+	for _, i := range []int{0, 1, 2, 3, 5, 6} {
+		wrapped = append(wrapped, rewrap(nested[i], "{"))
+	}
+	wrapped = append(wrapped, rewrap(nested[0], "("), rewrap(nested[4], "("), rewrap(nested[2], "{(<"), rewrap(nested[6], "<{"),
+		// the EDK2 layout itself: a volume-image file (type 0xb) holding the LZMA-wrapped DXE volume
+		"8.b.20{1.7.20,2.7.20,3.7.20},4.7.20")
+	sc1e := scripts(3)
+	if thorough {
+		sc1e = scripts(6)
+	}
+	for _, img := range wrapped {
+		for _, s := range sc1e {
+			all("ff", "0", img, s)
+		}
+		for _, req := range []string{"-", "1", "1,5", "5", "2", "3", "1,3", "4", "2,8"} {
+			emit("C", "cleanmono", "ff", "0", img, req)
+			emit("P", "p_mono", "ff", "0", img, req)
+			emit("C", "cleanmono", "ff", "2", img, req)
+			emit("P", "p_mono", "ff", "2", img, req)
+		}
+		for _, sel := range []string{"g1", "g2", "g3", "r1", "p0"} {
+			for _, pad := range []string{"0", "1"} {
+				for _, k := range []string{"0", "1", "3"} {
+					emit("C", "remove", "ff", pad, sel, img, k)
+				}
+			}
+		}
+	}
 	// 1d. other roots: the tree handed to the cleaner / to Remove is the volume
 	// itself (built in code: V!, or the volume node of uefi.Parse's result: X!),
 	// and for Remove also a file or a section
@@ -1094,7 +1206,8 @@ func gen(r *Rng, tier string, emit Emit) {
 		}
 	}
 	roots = append(roots, "1.7.20<2.7.20,3.7.20>,4.7.20", "8.2.20<1.7.20,2.7.20>,3.7.20",
-		"1.7.20<3.7.20,2.7.20>,3.7.20", "1.7.20,2.2.20.u1<1.7.20>,3.6.20")
+		"1.7.20<3.7.20,2.7.20>,3.7.20", "1.7.20,2.2.20.u1<1.7.20>,3.6.20",
+		"1.7.20{2.7.20,3.7.20},4.7.20", "8.2.20(1.7.20,2.7.20),3.7.20")
 	for _, v := range roots {
 		for _, s := range sc1d {
 			all("ff", "0", "V!"+v, s)
@@ -1113,6 +1226,18 @@ func gen(r *Rng, tier string, emit Emit) {
 				emit("C", "remove", "ff", "1", sel, "S!"+v+"/"+v, k)
 				emit("C", "remove", "ff", "0", sel, "F!1.7.20<"+v+"/2.7.20>", k)
 			}
+		}
+	}
+	for _, img := range []string{"1.7.20/1.7.20", "1.7.20,2.7.20/2.7.20,1.7.20", "/1.7.20,1.7.20", "1.7.20{2.7.20,3.7.20},4.7.20/3.7.20"} {
+		for _, s := range sc1d {
+			all("ff", "0", "I!"+img, s)
+		}
+		for _, req := range []string{"-", "1", "2", "1,3"} {
+			emit("C", "cleanmono", "ff", "0", "I!"+img, req)
+			emit("P", "p_mono", "ff", "0", "I!"+img, req)
+		}
+		for _, k := range []string{"0", "1", "2"} {
+			emit("C", "remove", "ff", "0", "g1", "I!"+img, k)
 		}
 	}
 	if thorough {
@@ -1148,13 +1273,15 @@ func gen(r *Rng, tier string, emit Emit) {
 		pc := N(uint64(rr.Pick(0, 0, 0, 1, 2, 3)))
 		if rr.Chance(1, 5) && !strings.Contains(topLevel(img), "/") { // the volume itself as root
 			img = "V!" + img
+		} else if rr.Chance(1, 8) { // a full flash image as root
+			img = "I!" + img
 		}
 		all(pol, pc, img, randScript(rr))
 		req := randReq(rr, used)
 		emit("C", "cleanmono", pol, pc, img, req)
 		emit("P", "p_mono", pol, pc, img, req)
 		// Remove alone
-		sel := "g" + gHex(rr.Range(1, 6))
+		sel := "g" + gHex(rr.Range(1, 7))
 		if len(used) > 0 && rr.Chance(3, 4) {
 			sel = "g" + gHex(used[rr.Intn(len(used))])
 		}
